@@ -22,7 +22,11 @@ REGISTRY = {
     "C09": ("smv.history_mc", "run_c09", "replay_case"),
     "C10": ("smv.history_mc", "run_c10", "replay_case"),
     "C11": ("smv.rewrite_mc", "run_c11", "replay_case"),
+    "C12": ("smv.pairs", "run_c12", "replay_case"),
+    "C13": ("smv.pairs", "run_c13", "replay_case"),
     "C14": ("smv.coords", "run_c14", "replay_case"),
+    "C15": ("smv.args", "run_c15", "replay_case"),
+    "C16": ("smv.args", "run_c16", "replay_case"),
     "C17": ("smv.coords", "run_c17", "replay_case"),
 }
 
